@@ -137,13 +137,15 @@ def snapshot(S):
             S.is_par, S.is_vec, S._geometry, id(arr), sorted(vars(S).keys()))
 
 
-def untouched(S, snap):
+def untouched(S, snap, strict=True):
+    """source object bit-identical: same array object and bytes, flags, geometry; strict also demands the same attribute set
+    (reads may legitimately memoise something on the object, so they are checked non-strictly — what a memo may not do is change an answer)"""
     arr = S.samples
     if id(arr) != snap[5] or not isinstance(arr, np.ndarray):
         return False
     return (arr.shape == snap[1] and np.array_equal(arr, snap[0], equal_nan=True) and S.is_par == snap[2] and S.is_vec == snap[3]
             and (S._geometry is snap[4] or (snap[4] is None and type(S._geometry).__name__ == "_DefaultGeometry1D"))
-            and sorted(vars(S).keys()) == snap[6])
+            and (not strict or sorted(vars(S).keys()) == snap[6]))
 
 
 # ----------------------------------------------------------------------------- oracles (implementation only)
@@ -285,6 +287,123 @@ def oracle_stats(ctx, key, desc, arr, p, res):
     return ok
 
 
+# ----------------------------------------------------------------------------- side reads (branching histories on one object)
+READS = ["fv", "vec", "par", "mean", "median", "variance", "std", "ci", "width", "Ns", "iter", "fv", "fv"]
+
+
+def fp(a):
+    if isinstance(a, np.ndarray) or isinstance(a, (list, tuple, float, int)):
+        try:
+            a = np.asarray(a, dtype=float)
+            return (a.shape, a.tobytes())
+        except Exception:
+            return repr(a)[:200]
+    return repr(a)[:200]
+
+
+def do_read(S, r, p=95):
+    """one read of S whose result is discarded by the caller; returns a fingerprint of the answer"""
+    try:
+        with quiet():
+            if r in ("fv", "vec", "par"):
+                R = apply_op(S, (r,))
+                return (bool(R.is_par), bool(R.is_vec), fp(R.samples))
+            if r == "mean":
+                return fp(S.mean())
+            if r == "median":
+                return fp(S.median())
+            if r == "variance":
+                return fp(S.variance())
+            if r == "std":
+                return fp(S.std())
+            if r == "ci":
+                return fp(S.compute_ci(p))
+            if r == "width":
+                return fp(S.ci_width(p))
+            if r == "Ns":
+                return (S.Ns, tuple(S.shape))
+            return fp(np.array([np.asarray(v) for v in S]))
+    except Exception as e:
+        return "err:" + type(e).__name__
+
+
+def gen_plan(rng, nops, p_read=0.5, p_derived=0.5):
+    """side reads before op k (discarded) and reads derived from the result of op k (checked)"""
+    reads, derived = {}, {}
+    for k in range(nops):
+        if rng.random() < p_read:
+            reads[k] = [rng.choice(READS) for _ in range(rng.randint(1, 2))]
+        if rng.random() < p_derived:
+            derived[k] = [rng.choice(["fv", "fv", "vec", "par", "stats"]) for _ in range(rng.randint(1, 2))]
+    return {"reads": reads, "derived": derived}
+
+
+def side_reads_before(ctx, S, reads, key, desc):
+    """perform the reads, discard the answers, demand a bit-identical source; returns the answers for the later re-read"""
+    out = []
+    for r in reads:
+        snap = snapshot(S)
+        v = do_read(S, r)
+        if not untouched(S, snap, strict=False):
+            ctx.fail(f"{key}:read-{r}:source", {**desc, "side_read": r}, "source bit-identical after a read", "changed", f"reading {r} changed the samples/flags/geometry of the object")
+        out.append((r, v))
+    return out
+
+
+def reread_after(ctx, S, answers, key, desc):
+    """the same reads on the same (source) object must still give the same answers after other calls were made on it"""
+    ok = True
+    for r, v in answers:
+        v2 = do_read(S, r)
+        if v2 != v:
+            ok = False
+            ctx.fail(f"{key}:reread-{r}", {**desc, "side_read": r}, "same answer as before", "different answer", f"a later {r} on the source gives a different answer than before the call")
+    return ok
+
+
+def derived_checks(ctx, R, g, derived, key, desc, model_states, exact):
+    """reads derived from a returned object R must be the property's value for R's stored samples (converted per sample /
+    per-coordinate statistics), whatever was read from the source before; conversions are also compared with the model"""
+    ok = True
+    for j, d in enumerate(derived):
+        ddesc = {**desc, "derived": d}
+        nf = len(ctx.failures)
+        if d == "stats":
+            arr = R.samples
+            if not isinstance(arr, np.ndarray) or arr.shape[-1] == 0 or arr.size > 120 or not np.all(np.isfinite(arr)):
+                continue
+            p = 95
+            try:
+                with quiet():
+                    res = (R.mean(), R.median(), R.variance(), R.std(), R.compute_ci(p), R.ci_width(p))
+            except Exception as e:
+                ctx.fail(f"{key}:then-stats:raised", ddesc, "statistics", type(e).__name__, "statistics of a returned object raise")
+                ok = False
+                continue
+            ok = oracle_stats(ctx, f"{key}:then-stats", ddesc, arr, p, res) and ok
+            if int(R.Ns) != arr.shape[-1]:
+                ok = False
+                ctx.fail(f"{key}:then-Ns", ddesc, arr.shape[-1], int(R.Ns), "Ns is not the number of stored samples")
+            continue
+        snap = snapshot(R)
+        R2, exc = None, None
+        try:
+            with quiet():
+                R2 = apply_op(R, (d,))
+        except Exception as e:
+            exc = type(e).__name__
+        st = "err:" + exc if exc else state_str(R2, g)
+        if exc is None:
+            ok = oracle_convert(ctx, f"{key}:then-{d}", ddesc, R, d, R2, g) and ok
+            if not untouched(R, snap, strict=False):
+                ok = False
+                ctx.fail(f"{key}:then-{d}:source", ddesc, "unchanged", "changed", "a read changed the returned object")
+        m = model_states.get(j)
+        if m is not None and st != "nonfinite" and not states_equal(m, st, exact=exact):
+            ctx.disagree(fkey(ctx, nf, f"{key}:then-{d}"), ddesc, m[:300], st[:300], "derived read differs between model and implementation")
+    return ok
+
+
 # ----------------------------------------------------------------------------- running the implementation
 def apply_op(S, op):
     if op[0] == "bt":
@@ -383,7 +502,10 @@ def run(ctx):
             g = G(Continuous1D(d), f"c1d:{d}", "cont1d", d, shape, d)   # a raw 4-D array with a mismatching geometry
             rep = "raw"
         arr = np.array([rng.randint(-9, 9) for _ in range(d * N)], dtype=float).reshape(shape + (N,))
-        seq_cases.append((g, rep, arr, [op], "burnthin-grid"))
+        plan = gen_plan(rng, 1, 0.3, 0.3)
+        if rep == "raw":   # a raw 4-D array under a mismatching geometry: only burnthin and statistics are meaningful
+            plan["derived"] = {k: ["stats" for _ in v] for k, v in plan["derived"].items()}
+        seq_cases.append((g, rep, arr, [op], "burnthin-grid", plan))
 
     # ------------------------------------------------------------------ 3. sequences of burnthin / funvals / vector / parameters
     nseq = 1200 * K
@@ -404,21 +526,37 @@ def run(ctx):
                     n_now = ceil_div(n_now - op[1], op[2])
             else:
                 ops.append((rng.choice(["fv", "vec", "par"]),))
-        seq_cases.append((g, rep, arr, ops, "sequence"))
+        seq_cases.append((g, rep, arr, ops, "sequence", gen_plan(rng, len(ops))))
 
-    lines = []
-    for g, rep, arr, ops, kind in seq_cases:
+    # main line per case (the linear chain) + one line per derived conversion (prefix of the chain, then the read):
+    # side reads do not appear in the model's input — in the model reads are pure, so its prediction is the same
+    lines, dline = [], {}
+    for ci, (g, rep, arr, ops, kind, plan) in enumerate(seq_cases):
         ip, iv = {"par": (1, 1), "vec": (0, 1), "fun": (0, int(arr.ndim <= 2)), "raw": (0, 0)}[rep]
         shape = ",".join(str(v) for v in arr.shape[:-1])
-        lines.append(f"seq {g.spec} {shape} {ip} {iv} {qm(cols_of(arr))} {';'.join(op_str(o) for o in ops)}")
-    outs = ctx.lean.drive(lines)
+        head = f"seq {g.spec} {shape} {ip} {iv} {qm(cols_of(arr))} "
+        lines.append(head + ";".join(op_str(o) for o in ops))
+        for k, ds in plan["derived"].items():
+            for j, d in enumerate(ds):
+                if d != "stats":
+                    dline[(ci, k, j)] = len(lines)
+                    lines.append(head + ";".join([op_str(o) for o in ops[:k + 1]] + [d]))
+    all_outs = ctx.lean.drive(lines)
+    main_idx = []
+    pos = 0
+    for ci, (g, rep, arr, ops, kind, plan) in enumerate(seq_cases):
+        main_idx.append(pos)
+        pos += 1 + sum(1 for ds in plan["derived"].values() for d in ds if d != "stats")
+    outs = [all_outs[i] for i in main_idx]
+    branch_reads = branch_derived = 0
     final_states = []   # (g, final impl Samples or None, model final state string)
     aliasing = 0
     nonfinite = [0]
-    for (g, rep, arr, ops, kind), out in zip(seq_cases, outs):
+    for ci, ((g, rep, arr, ops, kind, plan), out) in enumerate(zip(seq_cases, outs)):
         ip, iv = {"par": (True, True), "vec": (False, True), "fun": (False, arr.ndim <= 2), "raw": (False, False)}[rep]
         desc = {"geometry": g.spec, "rep": rep, "shape": list(arr.shape), "ops": [op_str(o) for o in ops],
-                "samples": arr.tolist() if arr.size <= 60 else "array of %d" % arr.size}
+                "samples": arr.tolist() if arr.size <= 60 else "array of %d" % arr.size,
+                "side_reads_before_op": {str(k): v for k, v in plan["reads"].items()}}
         ctx.case(kind, {k: desc[k] for k in ("geometry", "rep", "shape", "ops")} | {"h": hash(arr.tobytes()) % 10 ** 6}, nontrivial=(arr.shape[-1] >= 2))
         mstates = out.split(" | ") if out else []
         with quiet():
@@ -426,6 +564,12 @@ def run(ctx):
         istates = []
         cur = S
         for k, op in enumerate(ops):
+            key = f"{'burnthin' if op[0] == 'bt' else {'fv': 'funvals', 'vec': 'vector', 'par': 'parameters'}[op[0]]}:{g.kind}:{rep}"
+            sdesc = {**desc, "step": k, "op": op_str(op)}
+            nf = len(ctx.failures)
+            # ---- branching history: reads of `cur` whose answers are discarded, then the call on the same object
+            answers = side_reads_before(ctx, cur, plan["reads"].get(k, []), key, sdesc)
+            branch_reads += len(answers)
             snap = snapshot(cur)
             exc = None
             R = None
@@ -436,12 +580,10 @@ def run(ctx):
                 exc = type(e).__name__
             st = state_str(R, g) if exc is None else "err:" + exc
             istates.append(st)
-            key = f"{'burnthin' if op[0] == 'bt' else {'fv': 'funvals', 'vec': 'vector', 'par': 'parameters'}[op[0]]}:{g.kind}:{rep}"
-            sdesc = {**desc, "step": k, "op": op_str(op)}
-            ok = True
-            nf = len(ctx.failures)
+            ok = len(ctx.failures) == nf
             # ---- oracle on the implementation (every step)
-            if not untouched(cur, snap):
+            ok = reread_after(ctx, cur, answers, key, sdesc) and ok
+            if not untouched(cur, snap, strict=(op[0] == "bt")):
                 ok = False
                 ctx.fail(key + ":source", sdesc, "source object unchanged", "changed", f"{op_str(op)} modified the object it was called on")
             if op[0] == "bt":
@@ -474,6 +616,16 @@ def run(ctx):
                 break
             if exc is not None:
                 break
+            # ---- reads derived from the returned object (burnthin-then-read, conversion-then-read)
+            if isinstance(R.samples, np.ndarray) and R.samples.shape[-1] >= 1 and plan["derived"].get(k):
+                ds = plan["derived"][k]
+                mst = {}
+                for j, d in enumerate(ds):
+                    if (ci, k, j) in dline:
+                        parts = all_outs[dline[(ci, k, j)]].split(" | ")
+                        mst[j] = parts[k + 1] if len(parts) == k + 2 else None
+                derived_checks(ctx, R, g, ds, key, sdesc, mst, g.exact)
+                branch_derived += len(ds)
             cur = R
             if isinstance(R.samples, np.ndarray) and R.samples.shape[-1] == 0:
                 # an empty Samples object (only reachable through a negative burn-in / step): conversions of it
@@ -483,6 +635,7 @@ def run(ctx):
         final_states.append((g, cur if len(istates) == len(ops) and not istates[-1].startswith("err") else None,
                              mstates[-1] if mstates and len(mstates) == len(ops) and not mstates[-1].startswith("err") else None, desc))
     ctx.extra_cov["burnthin_results_sharing_memory_with_source"] = aliasing
+    ctx.extra_cov["branching_histories"] = {"side_reads_before_a_call": branch_reads, "reads_derived_from_a_result": branch_derived}
     ctx.extra_cov["states_with_nonfinite_values_not_compared"] = nonfinite[0]
     if nonfinite[0]:
         ctx.note(f"{nonfinite[0]} states contain NaN produced by a geometry map (StepExpansion with an empty interval, C13 finding): oracle run, exact model not compared")
@@ -743,19 +896,34 @@ def joint_part(ctx, cuqi, rng, K):
             N = N0 if rng.random() < 0.85 else rng.choice([2, 4, 9])
             members.append((k, g, initial_array(rng, g, "par", N)))
         op = gen_bt(rng, N0, malformed=(rng.random() < 0.1))
-        jcases.append((members, op))
+        # branching histories on the members: reads discarded before the joint call, reads derived from the result's members
+        jreads = {k: [rng.choice(READS) for _ in range(rng.randint(1, 2))] for k in keys if rng.random() < 0.5}
+        jder = {k: [rng.choice(["fv", "fv", "par", "stats"])] for k in keys if rng.random() < 0.5}
+        jcases.append((members, op, jreads, jder))
     lines = []
-    for members, op in jcases:
+    for members, op, jreads, jder in jcases:
         toks = ["joint", str(op[1]), str(op[2])]
         for k, g, a in members:
             toks += [k, g.spec, str(a.shape[0]), "1", "1", qm(cols_of(a))]
         lines.append(" ".join(toks))
-    outs = ctx.lean.drive(lines)
-    for (members, op), out in zip(jcases, outs):
-        desc = {"members": [(k, g.spec, list(a.shape)) for k, g, a in members], "op": op_str(op), "samples": {k: a.tolist() for k, g, a in members}}
+    njoint = len(lines)
+    dline = {}
+    for ci, (members, op, jreads, jder) in enumerate(jcases):
+        for k, g, a in members:
+            for d in jder.get(k, []):
+                if d != "stats":
+                    dline[(ci, k)] = len(lines)
+                    lines.append(f"seq {g.spec} {a.shape[0]} 1 1 {qm(cols_of(a))} {op_str(op)};{d}")
+    all_outs = ctx.lean.drive(lines)
+    outs = all_outs[:njoint]
+    for ci, ((members, op, jreads, jder), out) in enumerate(zip(jcases, outs)):
+        desc = {"members": [(k, g.spec, list(a.shape)) for k, g, a in members], "op": op_str(op), "samples": {k: a.tolist() for k, g, a in members},
+                "side_reads_before_op": jreads}
         ctx.case("joint", {"members": desc["members"], "op": desc["op"], "h": hash(b"".join(a.tobytes() for _, _, a in members)) % 10 ** 6}, nontrivial=len(members) >= 2)
         with quiet():
             J = JointSamples({k: Samples(a.copy(), geometry=g.obj) for k, g, a in members})
+        nf0 = len(ctx.failures)
+        answers = {k: side_reads_before(ctx, J[k], jreads[k], "joint:burnthin:member", {**desc, "member": k}) for k, _, _ in members if k in jreads}
         snaps = {k: snapshot(J[k]) for k in J}
         try:
             with quiet():
@@ -767,7 +935,9 @@ def joint_part(ctx, cuqi, rng, K):
             impl = "err:" + exc
         key = "joint:burnthin"
         ok = True
-        nf = len(ctx.failures)
+        nf = nf0
+        for k in answers:
+            ok = reread_after(ctx, J[k], answers[k], key + ":member", {**desc, "member": k}) and ok
         if any(not untouched(J[k], snaps[k]) for k in snaps) or list(J.keys()) != [k for k, _, _ in members]:
             ok = False
             ctx.fail(key + ":source", desc, "unchanged", "changed", "JointSamples.burnthin modified its source")
@@ -779,6 +949,12 @@ def joint_part(ctx, cuqi, rng, K):
                 else:
                     for k, g, a in members:
                         ok = oracle_burnthin(ctx, key + ":member", {**desc, "member": k}, J[k], op[1], op[2], R[k], None) and ok
+                        if k in jder and isinstance(R[k].samples, np.ndarray) and R[k].samples.shape[-1] >= 1:
+                            mst = {}
+                            if (ci, k) in dline:
+                                parts = all_outs[dline[(ci, k)]].split(" | ")
+                                mst[0] = parts[1] if len(parts) == 2 else None
+                            ok = derived_checks(ctx, R[k], g, jder[k], key + ":member", {**desc, "member": k}, mst, g.exact) and ok
             elif all(op[1] < a.shape[-1] for _, _, a in members):
                 ok = False
                 ctx.fail(key + ":refused", desc, "member-wise result", exc, "JointSamples.burnthin refuses although every member has more samples than the burn-in")
@@ -850,6 +1026,7 @@ def replay(ctx, rep):
                 op = parse_op(o)
                 if "op" in case and k == case.get("step"):
                     op = parse_op(case["op"])
+                answers = [(r, do_read(cur, r)) for r in case.get("side_reads_before_op", {}).get(str(k), [])]
                 snap = snapshot(cur)
                 R, exc = None, None
                 try:
@@ -858,12 +1035,15 @@ def replay(ctx, rep):
                 except Exception as e:
                     exc = type(e).__name__
                 kk = f"{'burnthin' if op[0] == 'bt' else {'fv': 'funvals', 'vec': 'vector', 'par': 'parameters'}[op[0]]}:{g.kind}:{rep_}"
-                if not untouched(cur, snap):
+                if not untouched(cur, snap, strict=(op[0] == "bt")):
                     ctx.fail(kk + ":source", case, "source object unchanged", "changed")
+                reread_after(ctx, cur, answers, kk, case)
                 if op[0] == "bt" and op[1] >= 0 and op[2] >= 1:
                     oracle_burnthin(ctx, kk, case, cur, op[1], op[2], R, exc)
                 elif op[0] != "bt" and exc is None:
                     oracle_convert(ctx, kk, case, cur, op[0], R, g)
+                if exc is None and k == case.get("step") and case.get("derived") and R.samples.shape[-1] >= 1:
+                    derived_checks(ctx, R, g, [case["derived"]], kk, {k2: v for k2, v in case.items() if k2 != "derived"}, {}, g.exact)
                 if exc is not None or k == case.get("step"):
                     break
                 cur = R
@@ -885,6 +1065,7 @@ def replay(ctx, rep):
             mem = [(k, geom_from_spec(spec), np.array(case["samples"][k], dtype=float)) for k, spec, _ in case["members"]]
             with quiet():
                 J = JointSamples({k: Samples(a.copy(), geometry=g.obj) for k, g, a in mem})
+            answers = {k: [(r, do_read(J[k], r)) for r in rs] for k, rs in case.get("side_reads_before_op", {}).items() if k in J}
             try:
                 with quiet():
                     R = J.burnthin(op[1], op[2])
@@ -898,6 +1079,10 @@ def replay(ctx, rep):
                 else:
                     for k, g, a in mem:
                         oracle_burnthin(ctx, "joint:burnthin:member", {**case, "member": k}, J[k], op[1], op[2], R[k], None)
+                        if k in answers:
+                            reread_after(ctx, J[k], answers[k], "joint:burnthin:member", {**case, "member": k})
+                        if case.get("derived") and case.get("member") == k and R[k].samples.shape[-1] >= 1:
+                            derived_checks(ctx, R[k], g, [case["derived"]], "joint:burnthin:member", {k2: v for k2, v in case.items() if k2 != "derived"}, {}, g.exact)
             done = True
     except Exception as e:   # malformed replay file: fall back to the full run
         ctx.note(f"replay of the single case failed ({e!r}); running the whole check")
